@@ -1,6 +1,58 @@
 """Per-property configuration of bin/check.py: theorem modules and registered theorems (obligations),
 observation families, which driver verdicts belong to the property."""
 
+import hashlib, os, random, shutil, subprocess
+import proc
+
+
+def c13_extra(ctx):
+    """runtime part of C13: fresh processes (fresh hash seeds), different creation orders"""
+    out = {"coverage": {}, "violations": [], "broken": [], "evaluations": 0, "samples": [], "distinct": []}
+    # (a) the same findings rendered in two fresh harness processes
+    a = os.path.join(ctx["work"], "render_p1.tsv")
+    b = os.path.join(ctx["work"], "render_p2.tsv")
+    for path in (a, b):
+        r = ctx["run"]([ctx["harness_bin"]("obs"), "render", "--seed", str(ctx["seed"]), "--tier", "quick", "--out", path])
+        if r.returncode != 0:
+            out["broken"].append({"what": "correspondence", "name": "obs render failed in a fresh process"})
+            return out
+    la, lb = open(a).read().split("\n"), open(b).read().split("\n")
+    diff = [i for i, (x, y) in enumerate(zip(la, lb)) if x != y]
+    out["evaluations"] += len(la)
+    out["coverage"]["cross_process_renderings"] = len(la)
+    out["coverage"]["cross_process_differences"] = len(diff)
+    if diff:
+        out["violations"].append({"kind": "PROC", "group": "cross-process", "why": "the same findings render differently in two processes",
+                                  "request_p1": la[diff[0]][:3000], "request_p2": lb[diff[0]][:3000]})
+    # (b) the binary on the same directory content created in different orders, run repeatedly
+    binary, err = proc.build_binary(ctx)
+    if not binary:
+        out["broken"].append({"what": "correspondence", "name": "solstat binary does not build", "log": err})
+        return out
+    root = proc.scratch_root()
+    try:
+        reports = []
+        runs = 9 if ctx["tier"] == "thorough" else 4
+        for k in range(runs):
+            rnd = random.Random(ctx["seed"] * 1000 + k)
+            d = os.path.join(root, f"run{k}")
+            proc.make_fixture(os.path.join(d, "contracts"), rnd)
+            code, rep, err = proc.run_solstat(binary, d, [])
+            reports.append((code, rep))
+            out["evaluations"] += 1
+        distinct = {hashlib.sha1(r[1] or b"").hexdigest() for r in reports}
+        out["coverage"]["binary_runs"] = runs
+        out["coverage"]["binary_distinct_reports"] = len(distinct)
+        out["distinct"] = list(distinct) + ["binary-fixture"]
+        if len(distinct) != 1 or any(r[0] != 0 or r[1] is None for r in reports):
+            out["violations"].append({"kind": "PROC", "group": "binary", "why": f"{len(distinct)} different reports over {runs} runs on the same directory content",
+                                      "exit_codes": [r[0] for r in reports]})
+        out["samples"].append({"kind": "PROC", "binary_runs": runs, "report_sha1": sorted(distinct), "report_bytes": len(reports[0][1] or b"")})
+    finally:
+        shutil.rmtree(root, ignore_errors=True)
+    return out
+
+
 PROPS = {
     "C01": {
         "theorems": {
@@ -209,6 +261,49 @@ PROPS = {
         "assumptions": [
             "determinism and repetition are properties of functions in the model; for the code they rest on the absence of shared state (theorem no_global_state on the regenerated inventory) and on the 16-thread stress comparison (runtime part, not proved)",
             "independence of the file number is observed on every file (two file numbers per call, generator statistic file_number_dependent_results must be 0); its proof is the equivariance of C17",
+        ],
+    },
+    "C11": {
+        "theorems": {
+            "Solstat.Props.C11": ["rb_section_lines", "rb_entries", "rb_block", "rb_blocksOf", "readBack_blocks", "triples_canon_perm",
+                                  "readBack_optimizationReport", "sigOK_of_b", "sigOK_opt", "sigOK_vuln", "sigOK_qa",
+                                  "overviews_have_no_marker", "C11_optimization", "C11_qa", "section_iff"],
+            "Solstat.Props.C13": ["all_variants_known"],
+        },
+        "obs": [("render", [])],
+        "kinds": ["RENDER", "FULLREPORT"],
+        "rule": "a case is one findings map (random subset of patterns, 0-6 files per pattern with names containing spaces, colons, dashes, unicode, the list marker; line sets incl. 0 and 2^31-1) rendered by the real generate_*_report; distinct by SHA-1; non-trivial when at least one entry is listed",
+        "assumptions": [
+            "the read-back theorem is about structured lines (text | entry file line); the textual form `- file:line` is parsed by the oracle (split at the last colon) on every real report — that parse is tested, not proved",
+            "section texts, overview formats and the variant->section mapping are regenerated by the translator; side conditions (every section has an exclusive signature line, no section or overview contains the list marker) are decided in the kernel on the regenerated texts",
+            "the vulnerability part's read-back is covered by readBack_blocks per severity part plus correspondence and oracle; a single theorem for the concatenated vulnerability report is not stated",
+            "file names without line breaks",
+        ],
+    },
+    "C12": {
+        "theorems": {
+            "Solstat.Props.C12": ["entryCount_blocks", "opt_total", "totalEntries_partition", "heading_literals_ok", "entryCount_severityPart",
+                                  "vuln_total", "severity_table", "blocks_eq_nil", "heading_iff", "part_iff"],
+        },
+        "obs": [("render", [])],
+        "kinds": ["RENDER", "FULLREPORT"],
+        "assumptions": [
+            "findings maps as the analysis produces them: keys only with non-empty vectors (a key with an empty vector makes a category part appear without sections; such maps are rendered too and agree with the model)",
+            "all 16 subsets of the four vulnerability patterns x random multiplicities are rendered on every run",
+        ],
+    },
+    "C13": {
+        "theorems": {
+            "Solstat.Props.Sort": ["sortBy_perm", "sortBy_sorted", "sortBy_eq_of_perm", "fileLe_preorder", "fileLe_antisymm", "sortFiles_perm"],
+            "Solstat.Props.C13": ["canon_perm", "canon_files_perm", "optimizationReport_perm", "qaReport_perm", "vulnerabilityReport_perm",
+                                  "all_variants_known", "fullReport_perm"],
+        },
+        "obs": [("render", [])],
+        "kinds": ["RENDER", "FULLREPORT"],
+        "extra": c13_extra,
+        "assumptions": [
+            "per-process RandomState is represented by a universally quantified permutation of the map's entries; that a HashMap cannot do anything a permutation cannot is an assumption (runtime part: the same findings are rendered in fresh processes and the binary is run repeatedly on differently-created trees; bytes must be identical)",
+            "Rust orders Strings byte-wise = by code point (UTF-8), BTreeSet<i32> lexicographically by elements",
         ],
     },
 }
